@@ -1,6 +1,9 @@
 (* C16 — effective settings equal the written ones (file or env), else start is refused.
-   Statements only. The model enters at the integer written; YAML / decimal lexing, string-valued
-   settings, missing and unknown keys are covered by the correspondence run only. *)
+   Statements only. The first block enters at the integer written; the last block (the loaders as
+   translated from the source) enters at the text: the YAML values yaml-rust hands to FileConfig::new
+   and the strings of the process environment, with str::parse::<uN>, hex decoding and
+   KmsProtection::from_str modelled in Model/ConfigLoad.v. YAML lexing itself is not modelled (the
+   correspondence run feeds the model the values yaml-rust produced). *)
 Require Import RV.Model.Config RV.Proofs.ConfigFacts.
 From Coq Require Import ZArith Bool.
 Local Open Scope Z_scope.
@@ -25,9 +28,11 @@ Proof. exact config_accepts. Qed.
 Print Assumptions C16_accepts.
 
 (* file and environment give the same result for the same value (status_interval within the
-   documented 16-bit range; the file loader alone accepts larger intervals) *)
+   documented 16-bit range: the file loader alone accepts larger intervals; num_workers within the
+   YAML integer range: a wider literal is not a YAML integer and the file loader refuses it) *)
 Theorem C16_sources_agree : forall k z,
-  (k = CStatus -> z <= 65535) -> effective File k z = effective Env k z.
+  (k = CStatus -> z <= 65535) -> (k = CWorkers -> z <= 9223372036854775807) ->
+  effective File k z = effective Env k z.
 Proof. exact config_sources_agree. Qed.
 Print Assumptions C16_sources_agree.
 
@@ -91,3 +96,107 @@ Theorem C16_translated_validator_iff :
   forall c, gen_is_valid_config c = Ok true <-> config_ok c = true.
 Proof. exact gen_is_valid_config_iff. Qed.
 Print Assumptions C16_translated_validator_iff.
+
+(* ---- the two LOADERS AS TRANSLATED FROM THE SOURCE on this run ----
+   Gen/Code.v gen_file_config_new / gen_env_config_new / gen_checked_int / gen_kms_from_str are produced
+   by /verif/rs2coq from src/config/file.rs, src/config/environment.rs and src/key/mod.rs: the loop over
+   the YAML mapping and its match on the key, the eleven `if let Ok(..) = env::var(..)`, the field each
+   arm assigns, the integer TYPE each arm converts to (taken from the struct's field declaration or the
+   `let` annotation: that is the `tmax_uN` / `parse_uN` in the generated code), every unwrap / expect /
+   unwrap_or_else(panic). They equal the compact hand-written loaders of Model/LoadModel.v. *)
+Require Import RV.Model.ConfigLoad RV.Model.GenSupport RV.Model.LoadModel RV.Proofs.LoadLib RV.Proofs.CodeLoad.
+From Coq Require Import List. Import ListNotations.
+
+Theorem C16_translated_file_loader_is_model :
+  forall cores docs f, gen_file_config_new cores docs f = file_load cores docs.
+Proof. exact gen_file_config_new_model. Qed.
+Print Assumptions C16_translated_file_loader_is_model.
+
+Theorem C16_translated_env_loader_is_model :
+  forall cores env, gen_env_config_new cores env = env_load cores env.
+Proof. exact gen_env_config_new_model. Qed.
+Print Assumptions C16_translated_env_loader_is_model.
+
+(* the file: when FileConfig::new returns a configuration, every integer setting has the value its LAST
+   line in the file gives it, that value fits the field's type (it is never wrapped), and a setting no
+   line names keeps its default *)
+Theorem C16_translated_file_written_is_loaded :
+  forall cores entries f c,
+  gen_file_config_new cores (Ok [DHash entries]) f = Ok c ->
+  forall k, match last_written entries (key_name k) with
+            | Some v => exists z, v = YInt z /\ load File k z = Some z /\ lc_get k c = Some z
+            | None => lc_get k c = lc_get k (lc_default cores)
+            end.
+Proof. exact gen_file_written. Qed.
+Print Assumptions C16_translated_file_written_is_loaded.
+
+(* ... and EVERY line must be acceptable (known key, value of the right YAML type, integer inside the
+   field's type, seed in hex, known kms spelling), not only the last one for its key *)
+Theorem C16_translated_file_every_line_checked :
+  forall cores entries f c,
+  gen_file_config_new cores (Ok [DHash entries]) f = Ok c -> Forall entry_ok entries.
+Proof. exact gen_file_every_line_ok. Qed.
+Print Assumptions C16_translated_file_every_line_checked.
+
+Theorem C16_translated_file_shape :
+  forall cores docs f c,
+  gen_file_config_new cores docs f = Ok c -> exists entries, docs = Ok [DHash entries].
+Proof. exact gen_file_shape. Qed.
+Print Assumptions C16_translated_file_shape.
+
+(* loader + validator = `effective` of the first block: a file that loads and validates runs, for every
+   integer setting it names, with exactly the value written *)
+Theorem C16_translated_file_start_is_effective :
+  forall cores entries f c ds ap,
+  gen_file_config_new cores (Ok [DHash entries]) f = Ok c ->
+  is_valid_config (to_settings c ds ap) = VOk true ->
+  forall k v, last_written entries (key_name k) = Some v ->
+  exists z, v = YInt z /\ lc_get k c = Some z /\ effective File k z = Running z.
+Proof. exact gen_file_start_effective. Qed.
+Print Assumptions C16_translated_file_start_is_effective.
+
+(* the environment, at the level of the decimal TEXT: str::parse::<uN> of the decimal text of z is the
+   integer-level loader (so `effective Env k z` speaks about the text `z` prints as) *)
+Theorem C16_decimal_text_is_integer_level :
+  forall s k z, 0 <= z -> parse_uint (type_max s k) (to_dec z) = load s k z.
+Proof. exact parse_dec_load. Qed.
+Print Assumptions C16_decimal_text_is_integer_level.
+
+Theorem C16_translated_env_start_is_effective :
+  forall cores env c ds ap,
+  gen_env_config_new cores env = Ok c ->
+  is_valid_config (to_settings c ds ap) = VOk true ->
+  forall k z, 0 <= z -> env (env_name k) = Some (to_dec z) ->
+  lc_get k c = Some z /\ effective Env k z = Running z.
+Proof. exact gen_env_start_effective. Qed.
+Print Assumptions C16_translated_env_start_is_effective.
+
+(* a variable whose text is not a number of the field's type — empty, signed, spaced, or the decimal text
+   of a value the type cannot hold — refuses the start; an unset variable leaves the default *)
+Theorem C16_translated_env_refuses_unparsable :
+  forall cores env k s,
+  env (env_name k) = Some s -> parse_uint (type_max Env k) s = None ->
+  forall c, gen_env_config_new cores env <> Ok c.
+Proof. exact gen_env_refuses_unparsable. Qed.
+Print Assumptions C16_translated_env_refuses_unparsable.
+
+Theorem C16_translated_env_refuses_out_of_type :
+  forall cores env k z,
+  type_max Env k < z -> env (env_name k) = Some (to_dec z) -> forall c, gen_env_config_new cores env <> Ok c.
+Proof. exact gen_env_refuses_out_of_type. Qed.
+Print Assumptions C16_translated_env_refuses_out_of_type.
+
+Theorem C16_translated_env_defaults :
+  forall cores env c,
+  gen_env_config_new cores env = Ok c -> forall k, env (env_name k) = None -> lc_get k c = lc_get k (lc_default cores).
+Proof. exact gen_env_defaults. Qed.
+Print Assumptions C16_translated_env_defaults.
+
+(* the seed written as hex is the seed loaded *)
+Theorem C16_hex_roundtrip : forall b, hex_decode (hex_encode b) = Some b.
+Proof. exact hex_decode_encode. Qed.
+Print Assumptions C16_hex_roundtrip.
+
+Theorem C16_decimal_roundtrip : forall max z, 0 <= z <= max -> parse_uint max (to_dec z) = Some z.
+Proof. exact parse_uint_to_dec. Qed.
+Print Assumptions C16_decimal_roundtrip.
